@@ -164,37 +164,35 @@ theorem run_header (c : Conf) (a : Nat) (s : St) (hs : s.phase = .header) (hbuf 
 theorem afterPayload_phase (s : St) (p : Phase) (r : PayloadResult) :
     afterPayload { s with phase := p } r = afterPayload s r := rfl
 
-theorem rmp_cond (s : St) (h1 : ¬ (s.flags.opcode ≥ opClose ∧ s.length > wsSmallFrameSize)) :
-    (decide (s.flags.opcode ≥ opClose) && decide (s.length > wsSmallFrameSize)) = false := by
-  apply Bool.eq_false_iff.mpr
-  intro h
-  simp only [Bool.and_eq_true, decide_eq_true_eq] at h
-  exact h1 h
+theorem readMaskOrPayload_invalid (c : Conf) (a : Nat) (s : St) (h1 : headerInvalid c s.flags s.length = true) :
+    readMaskOrPayload c a s = ({ s with phase := .closed }, handleError c closeProtocolError) := by
+  simp only [readMaskOrPayload, h1, if_true]
 
 theorem readMaskOrPayload_masked (c : Conf) (a : Nat) (s : St)
-    (h1 : ¬ (s.flags.opcode ≥ opClose ∧ s.length > wsSmallFrameSize)) (hm : s.flags.mask = true) :
+    (h1 : headerInvalid c s.flags s.length = false) (hm : s.flags.mask = true) :
     readMaskOrPayload c a s = ({ s with phase := .mask }, []) := by
-  simp only [readMaskOrPayload, rmp_cond s h1, hm]
+  simp only [readMaskOrPayload, h1, hm]
   simp
 
 theorem readMaskOrPayload_unmasked_pos (c : Conf) (a : Nat) (s : St)
-    (h1 : ¬ (s.flags.opcode ≥ opClose ∧ s.length > wsSmallFrameSize)) (hm : s.flags.mask = false)
+    (h1 : headerInvalid c s.flags s.length = false) (hm : s.flags.mask = false)
     (hl : s.length > 0) :
     readMaskOrPayload c a s = ({ s with phase := .payload }, []) := by
-  simp only [readMaskOrPayload, rmp_cond s h1, hm, hl]
+  simp only [readMaskOrPayload, h1, hm, hl]
   simp
 
 theorem readMaskOrPayload_unmasked_zero (c : Conf) (a : Nat) (s : St)
-    (h1 : ¬ (s.flags.opcode ≥ opClose ∧ s.length > wsSmallFrameSize)) (hm : s.flags.mask = false)
+    (h1 : headerInvalid c s.flags s.length = false) (hm : s.flags.mask = false)
     (hl : s.length = 0) :
     readMaskOrPayload c a s = afterPayload s (wsGetPayload c s.flags s.key a []) := by
-  simp only [readMaskOrPayload, rmp_cond s h1, hm, hl]
-  simp
+  simp only [readMaskOrPayload, h1, hm]
+  simp [hl]
 
 theorem run_body (c : Conf) (a : Nat) (s : St) (hs : s.phase = .header) (hbuf : 8 ≤ c.bufSize)
     (fin : Bool) (rsv opcode : Nat) (key : Option Bytes) (hk : ∀ k, key = some k → k.length = 4)
     (payload : Bytes) (hlen : payload.length ≤ c.bufSize)
-    (hctl : ¬ (opcode ≥ opClose ∧ payload.length > wsSmallFrameSize)) (rest : Bytes) :
+    (hctl : headerInvalid c { s.flags with fin := fin, rsv := rsv, opcode := opcode, mask := key.isSome }
+      payload.length = false) (rest : Bytes) :
     let r := readMaskOrPayload c a (s.withHeader fin rsv opcode key.isSome payload.length)
     seqRun r (run c a r.1 (key.getD [] ++ wirePayload key payload ++ rest)) =
       seqRun (s.deliver c a fin rsv opcode key payload) (run c a (s.deliver c a fin rsv opcode key payload).1 rest) := by
@@ -264,7 +262,8 @@ theorem run_wire (c : Conf) (a : Nat) (s : St) (hs : s.phase = .header) (hbuf : 
     (fin : Bool) (rsv opcode : Nat) (key : Option Bytes) (hk : ∀ k, key = some k → k.length = 4)
     (form : LenForm) (payload : Bytes) (hr : rsv < 8) (ho : opcode < 16) (hfit : form.fits payload.length)
     (hlen : payload.length ≤ c.bufSize)
-    (hctl : ¬ (opcode ≥ opClose ∧ payload.length > wsSmallFrameSize)) (rest : Bytes) :
+    (hctl : headerInvalid c { s.flags with fin := fin, rsv := rsv, opcode := opcode, mask := key.isSome }
+      payload.length = false) (rest : Bytes) :
     run c a s (wire fin rsv opcode key form payload ++ rest) =
       seqRun (s.deliver c a fin rsv opcode key payload) (run c a (s.deliver c a fin rsv opcode key payload).1 rest) := by
   unfold wire
